@@ -21,6 +21,7 @@ func C12(r *core.Run) {
 	boundPresence(r)
 	nameAffinity(r, convRel, "fields.go")
 	provEnumNumbers(r)
+	enumNumberingAgrees(r)
 	requiredPropagation(r)
 	ruleConstants(r)
 	arrayItems(r)
